@@ -72,38 +72,66 @@ Definition run_parse (p : ptype) (s : espec) (c : class) (off : N) (d : buf) : o
    0 next | 1 nth(a) | 2 by_ref().take(a) | 3 count() | 4 last() | 5 step_by(a).take(64) | 6 skip(a) drained | 7 fold *)
 Fixpoint nums_of (l : list arg) : list N :=
   match l with AN n :: t => n :: nums_of t | _ => [] end.
-Fixpoint step_items {T} (parse : buf -> M T) (fuel cap : nat) (a : N) (d : buf) (off : N) : list T :=
-  match cap with
-  | O => []
-  | S c => match it_nth parse fuel a d off with
-           | (Some x, o') => x :: step_items parse fuel c a d o'
-           | (None, _) => []
-           end
-  end.
-Fixpoint walk {T} (parse : buf -> M T) (po : T -> out) (d : buf) (fuel : nat) (acts : list N) (off : N) : list out :=
-  match acts with
-  | c :: a :: rest =>
-    let drain o := match iter_collect parse fuel d o with Some l => l | None => [] end in
-    if c =? 0 then let (x, o') := iter_next parse d off in oopt po x :: walk parse po d fuel rest o'
-    else if c =? 1 then let (x, o') := it_nth parse fuel a d off in oopt po x :: walk parse po d fuel rest o'
-    else if c =? 2 then let (l, o') := it_take parse fuel a d off in OL (map po l) :: walk parse po d fuel rest o'
-    else if c =? 3 then [ON (llen (drain off))]
-    else if c =? 4 then [oopt po (last (map Some (drain off)) None)]
-    else if c =? 5 then
-      match iter_next parse d off with
-      | (Some x, o') => [OL (map po (x :: step_items parse fuel 63 (N.pred a) d o'))]
-      | (None, _) => [OL []]
-      end
-    else if c =? 6 then
-      match it_nth parse fuel a d off with
-      | (Some x, o') => [OL (map po (x :: drain o'))]
-      | (None, _) => [OL []]
-      end
-    else if c =? 7 then [OL (map po (drain off))]
-    else [OBad]
-  | _ => []
-  end.
+(* generic in the iterator: nx is next() on the cursor *)
+Section Walk.
+  Context {T : Type}.
+  Variable nx : N -> option T * N.
+  Variable po : T -> out.
+  Fixpoint g_nth (fuel : nat) (n : N) (off : N) : option T * N :=
+    match fuel with
+    | O => (None, off)
+    | S f => match nx off with
+             | (None, o') => (None, o')
+             | (Some a, o') => if n =? 0 then (Some a, o') else g_nth f (N.pred n) o'
+             end
+    end.
+  Fixpoint g_take (fuel : nat) (a : N) (off : N) : list T * N :=
+    match fuel with
+    | O => ([], off)
+    | S f => if a =? 0 then ([], off) else
+             match nx off with
+             | (None, o') => ([], o')
+             | (Some x, o') => let (l, o2) := g_take f (N.pred a) o' in (x :: l, o2)
+             end
+    end.
+  Fixpoint g_drain (fuel : nat) (off : N) : list T :=
+    match fuel with
+    | O => []
+    | S f => match nx off with (Some x, o') => x :: g_drain f o' | (None, _) => [] end
+    end.
+  Fixpoint step_items (fuel cap : nat) (a : N) (off : N) : list T :=
+    match cap with
+    | O => []
+    | S c => match g_nth fuel a off with
+             | (Some x, o') => x :: step_items fuel c a o'
+             | (None, _) => []
+             end
+    end.
+  Fixpoint walk (fuel : nat) (acts : list N) (off : N) : list out :=
+    match acts with
+    | c :: a :: rest =>
+      if c =? 0 then let (x, o') := nx off in oopt po x :: walk fuel rest o'
+      else if c =? 1 then let (x, o') := g_nth fuel a off in oopt po x :: walk fuel rest o'
+      else if c =? 2 then let (l, o') := g_take fuel a off in OL (map po l) :: walk fuel rest o'
+      else if c =? 3 then [ON (llen (g_drain fuel off))]
+      else if c =? 4 then [oopt po (last (map Some (g_drain fuel off)) None)]
+      else if c =? 5 then
+        match nx off with
+        | (Some x, o') => [OL (map po (x :: step_items fuel 63 (N.pred a) o'))]
+        | (None, _) => [OL []]
+        end
+      else if c =? 6 then
+        match g_nth fuel a off with
+        | (Some x, o') => [OL (map po (x :: g_drain fuel o'))]
+        | (None, _) => [OL []]
+        end
+      else if c =? 7 then [OL (map po (g_drain fuel off))]
+      else [OBad]
+    | _ => []
+    end.
+End Walk.
 
+(* ---------- tables ---------- *)
 Definition run_table_q (p : ptype) (s : espec) (c : class) (d : buf) (q : list arg) : out :=
   let parse := pt_parse p s c in
   let size := pt_size p c in
@@ -114,7 +142,7 @@ Definition run_table_q (p : ptype) (s : espec) (c : class) (d : buf) (q : list a
     else if String.eqb w "iter" || String.eqb w "intoiter" then    (* iter() / IntoIterator::into_iter() *)
       match iter_all parse d with Some l => OL (map (pt_out p) l) | None => OT "fuel" [] end
     else OBad
-  | AW "walk" :: acts => OL (walk parse (pt_out p) d (iter_fuel d) (nums_of acts) 0)
+  | AW "walk" :: acts => OL (walk (iter_next parse d) (pt_out p) (iter_fuel d) (nums_of acts) 0)
   | [AW w; AN i] =>
     if String.eqb w "get" then ores (pt_out p) (table_get parse size d i)
     else if String.eqb w "nexts" then
@@ -162,6 +190,9 @@ Definition o_notes_all (s : espec) (c : class) (align : N) (d : buf) (base : N) 
 Definition run_notes_q (s : espec) (c : class) (align : N) (d : buf) (q : list arg) : out :=
   match q with
   | [AW w] => if String.eqb w "all" then o_notes_all s c align d 0 else OBad
+  | AW "walk" :: acts =>
+    OL (walk (fun off => match note_next s c align d off with (Ok x, o) => (x, o) | (_, o) => (None, o) end)
+             (o_note d 0) (S (S (N.to_nat (blen d)))) (nums_of acts) 0)
   | [AW w; AN k] =>
     if String.eqb w "nexts" then
       OL (map (ores (oopt (o_note d 0))) (notes_nexts (N.to_nat k) s c align d 0))
